@@ -80,6 +80,7 @@ type Obl struct {
 	Budget int      // solver timeout override in seconds (0 = tier default)
 	Blk    int      // block of the obligation (-1: whole function)
 	Splits []Term   // reach conditions of the incoming edges of the last merge (for case splitting)
+	Witness map[string]string // ground obligations: what a failing instance looks like (used by the replay harness)
 }
 
 func (o *Obl) Group() string { return o.Func + "/" + o.Class + "/" + o.Anchor }
